@@ -149,7 +149,12 @@ def plan(op, m):
         after.remove(q, meas)
         fn = lambda db: db.remove(qast.build(q), *a)  # noqa: E731
     elif kind == "update":
-        args = extra[0]
+        args = dict(extra[0])
+        if isinstance(args.get("time"), list) and args["time"] and args["time"][0] == "hit_time_in_zone":
+            from zoneinfo import ZoneInfo
+
+            base = m.points[op[1][0] % len(m.points)]["time"] if (m.points and op[0] == "update_hit") else gen.T0
+            args["time"] = base.astimezone(ZoneInfo(args["time"][1]))
         margs = {s: (lockstep.UPD[s][v[-1]] if isinstance(v, list) and v and v[0] == "fn" else v) for s, v in args.items() if not (isinstance(v, list) and v and v[0] in ("fn_raise", "fn_invalid"))}
         if not margs:
             margs = {"tags": {"a": "upd"}}
@@ -173,10 +178,26 @@ def plan(op, m):
     return fn, after, states
 
 
+_HANDLES = {}
+
+
+def handle_of(db, name):
+    """One measurement handle per (database object, name), created at first use and kept: what it memoises is part of the live object."""
+    key = (id(db), name)
+    if key not in _HANDLES or _HANDLES[key][0] is not db:
+        if len(_HANDLES) > 64:
+            _HANDLES.clear()
+        _HANDLES[key] = (db, db.measurement(name))
+    return _HANDLES[key][1]
+
+
 def prime_reads(db):
     """Reads issued right before the operation under test (anything cached from them must not survive the faulted operation)."""
     try:
         len(db), db.count(qast.build(READ_Q[0])), db.get_timestamps(), db.get_measurements(), len(db.measurement("m1")), db.get_field_keys()
+        for name in gen.MEAS[:3]:
+            h = handle_of(db, name)
+            h.get_tag_keys(), h.get_field_keys(), len(h)
     except Exception:
         pass
 
@@ -270,6 +291,7 @@ def consistent_reads(db, case, ctxinfo, acc, path=None):
             ts = db.get_timestamps()
             ms = db.get_measurements()
             ln = len(db.measurement("m1"))
+            hk = {name: (handle_of(db, name).get_tag_keys(), handle_of(db, name).get_field_keys(), len(handle_of(db, name))) for name in gen.MEAS[:3]}
         except Exception:
             acc.cls("live_read_raises_after_fault")
             continue
@@ -289,6 +311,10 @@ def consistent_reads(db, case, ctxinfo, acc, path=None):
             problems.append("get_measurements() = %r, storage has %r" % (ms, om.get_measurements()))
         if ln != len(om.of("m1")):
             problems.append("len(measurement m1) = %r, storage has %d" % (ln, len(om.of("m1"))))
+        for name, got in hk.items():
+            want = (om.get_tag_keys(name), om.get_field_keys(name), len(om.of(name)))
+            if got != want:
+                problems.append("handle %r (kept from before the fault) reports tag keys / field keys / length %r, its storage has %r" % (name, got, want))
         if problems:
             raise Violation("silently-wrong", ctxinfo["case"], "%s: the live database answers wrongly without raising%s: %s" % (ctxinfo["where"], "" if scan_ok else " (it can no longer scan its file, whose real contents are used for comparison)", "; ".join(problems[:3])))
     return own if scan_ok else None
